@@ -96,7 +96,7 @@ def run(ck):
     d = os.path.join(ck.scratch(), "c03")
     os.makedirs(d)
     jobs = []     # (label, src_text or path, target, is_path)
-    stats = {"corpus": 0, "own-sources": 0, "generated": 0, "mutants-tried": 0, "mutants-compiled": 0,
+    stats = {"corpus": 0, "own-sources": 0, "generated": 0, "late-types": 0, "mutants-tried": 0, "mutants-compiled": 0,
              "rejected-by-cproc": 0, "data-checked": 0}
 
     # 0. known-finding witnesses first: must still fail (else the model/finding list is stale)
@@ -148,6 +148,30 @@ def run(ck):
         open(p, "w").write(text)
         gens[p] = g
         jobs.append(("generated", p, targ, True))
+    # 3b. objects whose struct/union type is completed only after their first declaration
+    for i in range(30 if ck.quick else 400):
+        targ, cs = progrun.TARGETS[i % 3]
+        kind = rng.choice(["struct", "union"])
+        members = []
+        for k in range(rng.randint(1, 5)):
+            mt = rng.choice(["char", "short", "int", "long", "double", "float", "void *", "long long", "_Bool"])
+            arr = "[%d]" % rng.randint(1, 5) if rng.random() < 0.3 else ""
+            al = "_Alignas(%d) " % rng.choice([8, 16, 32]) if rng.random() < 0.15 else ""
+            members.append("%s%s m%d%s;" % (al, mt, k, arr))
+        body = " ".join(members)
+        first = rng.choice(["%s T%d a;", "extern %s T%d a;", "static %s T%d a;", "%s T%d a; %s T%d a;", "extern %s T%d a; extern %s T%d a;"])
+        first = first.replace("%s T%d", "%s T%d" % (kind, i))
+        init = rng.choice(["", "", " = {0}", " = {0}"])
+        define = "" if first.startswith("static") or (not init and "extern" not in first) else "%s T%d a%s;" % (kind, i, init)
+        if "extern" in first and not define:
+            define = "%s T%d a;" % (kind, i)
+        text = ("%s T%d;\n%s\n%s T%d *p = &a;\n%s T%d { %s };\n%s\n"
+                "unsigned long a__sz = sizeof a;\nunsigned long a__al = _Alignof(%s T%d);\n"
+                % (kind, i, first, kind, i, kind, i, body, define, kind, i))
+        p = os.path.join(d, "late%d.c" % i)
+        open(p, "w").write(text)
+        jobs.append(("late-types", p, targ, True))
+
     # 4. token mutants of corpus files
     nm = 400 if ck.quick else 6000
     k = 0
@@ -179,7 +203,7 @@ def run(ck):
             continue
         if rc != 0:
             stats["rejected-by-cproc"] += 1
-            if label in ("corpus", "generated", "own-sources"):
+            if label in ("corpus", "generated", "own-sources", "late-types"):
                 ck.violation({"kind": "valid-program-rejected", "source": open(job[1]).read()[:6000], "target": job[2],
                               "stderr": err[-600:], "what": "a valid program is rejected (or cproc died: rc=%s)" % rc})
                 return
@@ -201,11 +225,17 @@ def run(ck):
                    "what": "cproc-qbe exited 0 but its output is not a well-formed IL module"}, fid=fid)
         if ck.violations:
             return
-    # 5. data definitions: size == sizeof, alignment >= _Alignof (generated programs carry probes)
+    # 5. data definitions: size == sizeof, alignment >= _Alignof (generated programs carry probes);
+    #    every data definition of every accepted module has a power-of-two alignment >= 1
     for path, job in meta.items():
-        if job[0] != "generated":
-            continue
         sz = data_sizes(path)
+        for name, (size, align) in sz.items():
+            if align < 1 or align & (align - 1):
+                ck.violation({"kind": "data-align", "source": open(job[1]).read()[:6000], "target": job[2], "object": name,
+                              "emitted_align": align, "what": "data definition with an alignment that is not a power of two >= 1"})
+                return
+        if job[0] not in ("generated", "late-types"):
+            continue
         img = data_images(path)
         for name, (size, align) in sz.items():
             if name + "__sz" in img:
